@@ -180,7 +180,11 @@ def worlds(draw, ninst=3, hostile_names=True, split_paths=False, foreign_ids=Fal
         if draw(st.integers(0, 4)) == 0:
             sib = draw(leaf)
             if not (d == 3 and "required" in sib):
-                obj.update(sib)
+                if draw(st.booleans()):
+                    obj.update(sib)
+                else:               # member order must not matter: siblings written BEFORE $ref
+                    obj = dict(sib, **obj)
+                    classes.append("sibling-before-ref")
                 classes.append("sibling-ignored")
         if draw(st.integers(0, 49)) == 0:
             # an id written next to $ref is a sibling like any other: ignored (drafts <= 7)
@@ -246,6 +250,9 @@ def worlds(draw, ninst=3, hostile_names=True, split_paths=False, foreign_ids=Fal
             root["properties"] = dict((k, REF()) for k in draw(st.lists(inst_keys, min_size=1, max_size=3, unique=True)))
             if draw(st.integers(0, 1)) == 0:
                 root["properties"]["k"] = {"$ref": draw(st.sampled_from(["#", "", "#", ""]))} if not exotic else REF()
+                if draw(st.integers(0, 2)) == 0 and "$ref" in root["properties"]["k"]:
+                    root["properties"]["k"].update(draw(leaf))
+                    classes.append("sibling-ignored")
                 classes.append("recursive-root")
         elif pos == "items":
             root["items"] = REF()
